@@ -663,7 +663,8 @@ func (c *client) handlePrepare(raw *frame.RawFrame, msg *message.Prepare, body *
 					} else {
 						id := md5.Sum([]byte(msg.Query + keyspace))
 						c.send(hdr, &message.PreparedResult{
-							PreparedQueryId: id[:],
+							PreparedQueryId:  id[:],
+							ResultMetadataId: id[:], // Required by protocol versions v5 and DSEv2, ignored by the others
 							ResultMetadata: &message.RowsMetadata{
 								ColumnCount: int32(len(columns)),
 								Columns:     columns,
@@ -678,7 +679,8 @@ func (c *client) handlePrepare(raw *frame.RawFrame, msg *message.Prepare, body *
 				id := md5.Sum([]byte(msg.Query))
 				c.preparedSystemQuery[id] = stmt
 				c.send(hdr, &message.PreparedResult{
-					PreparedQueryId: id[:],
+					PreparedQueryId:  id[:],
+					ResultMetadataId: id[:], // Required by protocol versions v5 and DSEv2, ignored by the others
 				})
 			default:
 				c.send(hdr, &message.ServerError{ErrorMessage: "Proxy attempted to intercept an unhandled query"})
